@@ -1,4 +1,4 @@
-import AC.RunsX
+import AC.RunsProof
 /-! # C11 — a chain of run lengths becomes a valid chain of the runs themselves
 
 Model: `P.runsChainX` (alg/dict/runs.go `RunsChain`): `Chain.Program`, `MinMax` by value, the
@@ -6,10 +6,11 @@ Model: `P.runsChainX` (alg/dict/runs.go `RunsChain`): `Chain.Program`, `MinMax` 
 namespace AC.Props.C11
 open P
 
-/-- full statement over the executable model -/
-def C11_Statement : Prop :=
-  ∀ lc : Chain, IsChain lc → (∀ l ∈ lc, l < 2 ^ 64) →
-    ∃ c, runsChainX lc = .ok c ∧ IsChain c ∧ ∀ l ∈ lc, onesI l.toNat ∈ c
+/-- for every valid chain of run lengths (any element order) below a machine word: the derived
+    chain is a valid addition chain containing `2^l − 1` for every length `l` of the input -/
+theorem C11_runsChain (lc : Chain) (hc : IsChain lc) (hsmall : ∀ l ∈ lc, l < 2 ^ 64) :
+    ∃ c, runsChainX lc = .ok c ∧ IsChain c ∧ ∀ l ∈ lc, onesI l.toNat ∈ c :=
+  runsChainX_ok lc hc hsmall
 
 /-- core: from `{1}`, after any sequence of length additions `(la, lb)` each over lengths already
     reached and producing a new length, the state of `RunsChain` (chain + largest shift per length,
